@@ -242,15 +242,15 @@ def check(cx):
     # that is what wakes the waiting client; a clone kept by the submitter (`submit(task, &tx)`) leaves it blocked forever
     RUNNER = "multithreading::runner::SharedTaskRunner"
     runner_fns = [g for g in K.each_fn(p) if (g.root or g.id).startswith(RUNNER + "::") or g.impl_adt == RUNNER]
-    jobs = [g for g in runner_fns if g.kind == "closure" and any(c.callee.endswith("Sender::<T>::send") for c in g.calls())]
+    jobs = [g for g in runner_fns if g.kind == "closure" and any(("mpsc::Sender" in c.callee and c.callee.endswith("::send")) for c in g.calls())]
     if not jobs:
         cx.bad(r5, "result-sent:anchor-missing", "", "no job closure of SharedTaskRunner sends a result")
     for g in jobs:
-        snd = {c.bb for c in g.calls() if c.callee.endswith("Sender::<T>::send")}
+        snd = {c.bb for c in g.calls() if ("mpsc::Sender" in c.callee and c.callee.endswith("::send"))}
         owner = (g.root or g.id).rsplit("::", 1)[-1]
         cx.verdict(not g.success_returns_from(0, blocked=snd), r5, owner + ":result-sent", g.where(),
                    "the result is sent on every path", "a job closure of %s can finish without sending the result: the submitter blocks forever" % owner)
-    waiters = [(h, c) for h in runner_fns if h.kind != "closure" for c in h.calls() if c.callee.endswith("Receiver::<T>::recv")]
+    waiters = [(h, c) for h in runner_fns if h.kind != "closure" for c in h.calls() if ("mpsc::Receiver" in c.callee and c.callee.endswith("::recv"))]
     if len(waiters) < 2:
         cx.bad(r5, "recv:anchor-missing", "", "fewer than two SharedTaskRunner methods wait on a result channel")
     seen_w = set()
@@ -265,6 +265,15 @@ def check(cx):
         after = h.reachable(rc.bb)
         late = [bi for bi in after if h.blocks[bi]["term"]["t"] == "drop" and "mpsc::Sender<" in str(h.blocks[bi]["term"].get("ty", ""))
                 and not h.blocks[bi].get("cleanup")]
+        if late:
+            # a Sender moved away earlier (`drop(tx)`, moved into the job) leaves a scope-end drop behind a drop flag that is false by
+            # then: only drops that a path through the wait can really reach count
+            from axvlib import absint
+            try:
+                ps_ = absint.PathSearch(p, h)
+                late = [bi for bi in late if ps_.find_path(0, {bi}, via={rc.bb}) is not None]
+            except absint.TooManyStates:
+                pass
         # a loop that receives many results (run_all) owns no sender either: it dropped it explicitly before draining
         cx.verdict(not late, r5, nm_ + ":no-sender-kept-while-waiting", rc.where(), "every Sender was moved into the jobs (or dropped) before the wait",
                    "%s still owns a Sender of the channel it waits on (dropped only after recv): when the job panics on the worker the "
